@@ -44,7 +44,7 @@ def required_cells(tier):
     return ["alias:chain-1", "alias:chain-2", "alias:chain-3", "alias:cycle", "alias:dangling", "alias:self", "action:append_const",
             "action:store_split", "action:extend_match", "extend_match:override", "extend_match:no-override", "rule:two-flags",
             "pass-with-modes", "user-extends-builtin", "user-redefines-as-alias", "implicit==explicit", "alias==target",
-            "repeat-parse", "builtin:gcc", "builtin:clang", "builtin:icx", "builtin:nvcc", "e2e:_OPENMP", "e2e:__CUDA_ARCH__",
+            "repeat-parse", "implicit-option:attached-value", "builtin:gcc", "builtin:clang", "builtin:icx", "builtin:nvcc", "e2e:_OPENMP", "e2e:__CUDA_ARCH__",
             "e2e:__SYCL_DEVICE_ONLY__", "unknown-compiler"]
 
 
@@ -156,6 +156,9 @@ def gen_config(rng):
         opts = []
         if rng.random() < 0.6:
             opts += [f"-D{prefix.upper()}_IMPLICIT", "-I", f"/implicit/{prefix}"]
+        if rng.random() < 0.3:
+            opts += [f"-isystem/implicit/sys_{prefix}", f"-includeimplicit_{prefix}.h"]    # value attached to the flag
+            cells.add("implicit-option:attached-value")
         if rules and rng.random() < 0.3:
             r0 = rules[0]
             if r0["action"] == "append_const":
@@ -208,7 +211,8 @@ def gen_argv(rng, compilers, name):
     comp = comp or {}
     argv = []
     for _ in range(rng.randint(0, 3)):
-        argv += rng.choice([["-DX=1"], ["-D", "Y"], ["-I/inc"], ["-I", "rel/inc"], ["-isystem", "/sys"], ["-include", "f.h"], ["-O2"], ["-c"]])
+        argv += rng.choice([["-DX=1"], ["-D", "Y"], ["-I/inc"], ["-I", "rel/inc"], ["-isystem", "/sys"], ["-include", "f.h"], ["-O2"], ["-c"],
+                            ["-isystem/sys2"], ["-includeg.h"]])
     for r in comp.get("parser", []):
         if rng.random() < 0.55:
             f = rng.choice(r["flags"])
